@@ -104,6 +104,40 @@ def _run_compile(cmd, out, log):
 
 SHIM_DEPS = ["shim/abi.h", "shim/shim_common.hpp"]
 
+_CAPS = None
+CAP_TYPES = {"i8": "int8_t", "u8": "uint8_t", "i16": "int16_t", "u16": "uint16_t", "i32": "int32_t", "u32": "uint32_t",
+             "i64": "int64_t", "u64": "uint64_t", "f32": "float", "f64": "double"}
+
+
+def caps():
+    global _CAPS
+    if _CAPS is None:
+        p = os.path.join(VERIF, "caps.json")
+        _CAPS = json.load(open(p)) if os.path.exists(p) else {}
+    return _CAPS
+
+
+def caps_header(target):
+    """frozen capability matrix (caps.json) rendered as a force-included header for one target"""
+    c = caps()
+    names = sorted(c)
+    lines = ["#pragma once", "#include <cstdint>", "enum xsv_cap_id { " + ", ".join("CAP_" + n for n in names) + (", " if names else "") + "CAP__END };",
+             "template <int C, class T> struct xsv_cap { static constexpr bool value = false; };"]
+    for n in names:
+        for ty, ok in sorted(c[n].get(target, {}).items()):
+            if ok:
+                lines.append("template <> struct xsv_cap<CAP_%s, %s> { static constexpr bool value = true; };" % (n, CAP_TYPES[ty]))
+    txt = "\n".join(lines) + "\n"
+    h = hashlib.sha256(txt.encode()).hexdigest()[:16]
+    d = os.path.join(CACHE, "caps")
+    os.makedirs(d, exist_ok=True)
+    path = os.path.join(d, "caps_%s_%s.h" % (target.replace("<", "_").replace(">", "_"), h))
+    if not os.path.exists(path):
+        with open(path + ".tmp%d" % os.getpid(), "w") as f:
+            f.write(txt)
+        os.replace(path + ".tmp%d" % os.getpid(), path)
+    return path
+
 
 def shim_job(family, target, cc="g++", extra=()):
     """returns (out_path, cmd, log) for one shim .so"""
@@ -116,6 +150,8 @@ def shim_job(family, target, cc="g++", extra=()):
     flags = ["-std=c++17", "-O2", "-g0", "-w", "-fPIC", "-shared", "-fvisibility=hidden",
              "-D" + HOOK_GUARD, "-DXSV_ARCH=" + a["tag"], "-DXSV_NAME=" + a["name"],
              "-I" + os.path.join(REPO, "include"), "-I" + os.path.join(VERIF, "shim")] + a["flags"] + list(extra)
+    if a in archs():
+        flags += ["-include", caps_header(target)]
     key = _key([tree_hash(), _hash_files(deps), " ".join(flags), compiler_id(cc), "shim"])
     d = os.path.join(CACHE, tree_hash())
     out = os.path.join(d, "shim_%s_%s_%s.so" % (family, target, key))
@@ -201,7 +237,7 @@ def prune(keep=3):
     if not os.path.isdir(CACHE):
         return
     cur = tree_hash()
-    dirs = [d for d in os.listdir(CACHE) if d not in ("drivers",) and os.path.isdir(os.path.join(CACHE, d))]
+    dirs = [d for d in os.listdir(CACHE) if d not in ("drivers", "caps") and os.path.isdir(os.path.join(CACHE, d))]
     if cur in dirs:
         os.utime(os.path.join(CACHE, cur))
     dirs.sort(key=lambda d: os.path.getmtime(os.path.join(CACHE, d)), reverse=True)
